@@ -1360,6 +1360,14 @@ Proof.
       apply lg_atomic_u. apply lg_switch. apply lg_spawn.
       * apply IHf. intros gs' ahs'. apply scoped_fin_lg_all. exact Hd.
       * intros tid. lg_log99. apply IHr.
+    + (* PAcqNew *)
+      unfold acq_new_code. apply lg_atomic_u. lg_log99. apply IHr.
+    + (* PAcqPoll *)
+      unfold acq_poll_code. apply lg_atomic; intros a.
+      repeat first [ lg_log99; apply IHr | lg_step ].
+    + (* PAcqDrop *)
+      unfold acq_drop_code. apply lg_atomic; intros a.
+      repeat first [ lg_log99; apply IHr | (apply sem_release_code_lg; lg_log99; apply IHr) | lg_step ].
 Qed.
 
 (* every program of Lang/Prog.v records a join only right after the last block of that join *)
